@@ -1,3 +1,8 @@
+// STATUS (hw-parsers): NOT ENABLED - there is deliberately no c12_ratfromstring.json. The harness translates and the models are
+// complete, but symbolic execution of the real libstdc++ std::string code (find_first_of/substr/erase/insert/append and
+// std::search on a string whose LENGTH depends on symbolic bytes) did not finish the first loop-bound discovery run within
+// 30 min even for literals of length <= 4 (CBMC 6.11, unwind 8). To enable: add a spec with the ll2c directives listed at the
+// end of this file.
 // C12-O1: soplex::ratFromString (src/soplex/rational.h) turns every numeric literal into exactly the rational it denotes.
 // The real string manipulation (std::string code of libstdc++, std::search, std::stoi) is translated as is. GMP is not
 // modelled; instead the SIX functions through which ratFromString touches Boost's gmp_rational are replaced by a
@@ -195,3 +200,17 @@ extern "C" void h_ratfromstring()
    vp_cover(1);
    free(b);
 }
+
+/* ll2c directives used in the experiment:
+  cut *
+  keep soplex::ratFromString | keep soplex::findSubStringIC | keep std:: | keep __gnu_cxx:: | keep boost::multiprecision::number<
+  keep operator new | keep operator delete | cut std::basic_ostream | cut std::ios_base | cut std::basic_ios | cut std::operator<<
+  replace gmp_rational::gmp_rational() => m_gr_ctor
+  replace gmp_rational::~gmp_rational() => m_gr_dtor
+  replace gmp_rational::operator=(boost::multiprecision::backends::gmp_rational&&) => m_gr_assign_move
+  replace gmp_rational::operator=(double) => m_gr_assign_double
+  replace gmp_rational::operator=(char const*) => m_gr_assign_str
+  replace expression_template_option)0>::operator*=<double>(double const&) => m_muleq
+  replace =pow => m_pow | replace =strtol => m_strtol | replace =__errno_location => m_errno_location
+  repo_srcs: soplex/spxdefines.cpp ; native_srcs: all ; defs: -DLEN=4 ; unwind 8
+*/
